@@ -13,7 +13,7 @@ def run(tier):
     if tier == "quick":
         sym, num = parallel([lambda: drivers_run("sym", 3, 3, "drivers_sym"), lambda: drivers_run("num", 3, 3, "drivers_num")], 2)
     else:
-        sym, num = parallel([lambda: drivers_run("sym", 3, 3, "drivers_sym"), lambda: drivers_run("num", 6, 3, "drivers_num")], 2)
+        sym, num = parallel([lambda: drivers_run("sym", 3, 3, "drivers_sym"), lambda: drivers_run("num", 6, 6, "drivers_num")], 2)
     chk.add_tlc(sym, "B-model of every driver on the generic cubic map R^n -> R^m with SYMBOLIC coefficients and point = formal "
                      "partial differentiation; n in 0..3, m in 1..3, all index triples of third_partial_derivative_vec")
     chk.add_tlc(num, "the same with pairwise distinct integer coefficients: exported cases")
